@@ -496,23 +496,21 @@ impl<'arena> PrettyFormatter<'arena> {
         )
     }
 
-    /// Capture measures the continuation lines of a block comment against the opening column
-    /// only when the comment opens its line. A comment that follows code on its line keeps the
-    /// source columns of its continuation lines, so they are printed without the nesting.
+    /// Capture measures the continuation lines of a block comment against the column of its
+    /// opener, so they are printed relative to the column where the opener lands, whatever the
+    /// nesting and whatever precedes the comment on its line.
     fn block_comment(&self, comment: &'arena BlockComment) -> RcDoc<'arena> {
         let text = comment.text.clone();
         RcDoc::column(move |column| {
             let text = text.clone();
             RcDoc::nesting(move |nesting| {
-                let lines = RcDoc::intersperse(
+                let column = isize::try_from(column).unwrap_or(isize::MAX);
+                let nesting = isize::try_from(nesting).unwrap_or(isize::MAX);
+                RcDoc::intersperse(
                     text.split('\n').map(|line| RcDoc::text(line.to_owned())),
                     RcDoc::hardline(),
-                );
-                if column == nesting {
-                    lines
-                } else {
-                    lines.nest(-isize::try_from(nesting).unwrap_or(isize::MAX))
-                }
+                )
+                .nest(column.saturating_sub(nesting))
             })
         })
     }
